@@ -74,6 +74,17 @@ PROPS = {
         "assumptions": ["Spec/Decimal.portion_denotes is what 'denotes exactly that fraction in base ten' means"],
         "trusted_base": ["modelled rather than verified: parser.go ParsePercentageRatio / parseRatio, interpreter.go parseVar / parseMonetary / ParsePortionSpecific, value.go String() (coq/Model/Conv.v, Run.v, Value.v)", "encoding/json escaping of transaction metadata: glue, exercised only"],
     },
+    "C14": {
+        "rule": "texts: grammar-complete generated scripts in two layouts (valid by construction: must be accepted) and, for four in five, a mutation: token-level (prefix, delete / duplicate / insert / swap tokens, delete a run, unbalance, token soups), byte-level (truncate, delete / insert / replace a character incl. '#', quotes, comment openers, non-ASCII, CR), numerals that do not fit in an int (first or last line), plus the corpus of inputs that crashed the pinned tree; thorough adds truncation at EVERY offset of 12 scripts. Observed under recover(): numscript.Parse, GetParsingErrors, ParseErrorsToString; the reference parser decides validity, the model of ShowOnSource predicts rendering. Non-trivial: the text is not an unmutated valid script; distinct by hash.",
+        "assumptions": ["PARTIAL: 'syntactically valid' is membership in the language of Numscript.g4 as decided by the reference parser coq/Model/Parser.v (compared with ANTLR on every input); ANTLR's generated code and error recovery are explored, not proved",
+                        "known finding F-D10: a NUMBER literal outside the int range is rejected; for inputs with that signature (detected with the implementation's own lexer) only the acceptance requirement is waived"],
+        "trusted_base": ["modelled rather than verified: Numscript.g4 (coq/Model/Lexer.v, Parser.v), parser.go conversions, range.go ShowOnSource (coq/Model/Render.v)", "the ANTLR runtime and generated lexer/parser: exercised only"],
+    },
+    "C15": {
+        "rule": "scripts from the grammar-complete generator (every alternative of every rule, nesting <= 3, thorough <= 5; any expression in any position; number literals with leading zeros, portions in every spelling, strings with escaped quotes and non-ASCII) x 2 layouts (single spaces; random spaces / tabs / CR LF / blank lines / line and nested block comments with non-ASCII between any two tokens). parser.Parse's tree is dumped in full (every field and range) and compared in Coq with the generator's own tree carrying the printer's spans AND with the reference parser's tree. Every case non-trivial; distinct by hash.",
+        "assumptions": ["portion literals are compared by value (50% is 50/100 in the tree)"],
+        "trusted_base": ["modelled rather than verified: Numscript.g4 (coq/Model/Lexer.v, Parser.v), parser.go tree conversion", "harness/gen.go printer spans are the 'text of that construct' of the property"],
+    },
     "C03": {
         "rule": SCRIPTS_RULE + "profile: one fixed-amount send (optionally preceded by saves). Non-trivial: source and destination trees evaluate and the send reaches the draw; distinct by hash of the case.",
         "assumptions": ["Spec/Greedy.v (draw_exact) is what 'the sources, drawn in their declared order within their balances, caps and overdraft limits, can supply' means",
